@@ -150,7 +150,8 @@ let () = register "c16.showtype" (fun line ->
     hx (if pr = "p" then show_type_plain t else show_type t) ^ " " ^ b01 (doc_type t)
   | _ -> "BAD-CASE")
 
-(* case: "<hex line> <spec | -> <c|p>" *)
+(* case: "<hex line> <spec | -> <c|p>"; the class labels nested_array / enum_comment (and printer_union, alias_lines
+   below) belong to repaired findings: they only tag the cases, no deviation is accepted for them any more *)
 let () = register "c16.line" (fun line ->
   match split_ws line with
   | h :: rest ->
@@ -161,7 +162,8 @@ let () = register "c16.line" (fun line ->
        let s = rd_stat (toks_of sp) in
        let txt = head2 @ (if pr = "p" then show_line_plain s else show_line s) in
        if not (doc_stat s) || ls <> [(n_of_int 1, txt)] then "BAD-CASE\tBAD-CASE\t-" else
-       let spec = ser_frag { f_stats = [embed_stat s]; f_lines = [n_of_int 1]; f_errs = [] } in
+       (* the plain text `T[][]` is read as ArrayType{ArrayType T}, the canonical `(T[])[]` as ArrayType{MultiType{ArrayType T}} *)
+       let spec = ser_frag { f_stats = [if pr = "p" then embed_line_plain s else embed_line s]; f_lines = [n_of_int 1]; f_errs = [] } in
        m ^ "\t" ^ spec ^ "\t" ^ classes [("nested_array", pr = "p" && stat_nested_array s); ("enum_comment", enum_with_comment s)]
      | _ -> m ^ "\t-\t-")
   | _ -> "BAD-CASE")
@@ -172,7 +174,7 @@ let () = register "c16.fragment" (fun line ->
   | h :: _ ->
     let ls = lines_of h in
     ser_res (parse_fragment ls) ^ "\t" ^ ser_res (parse_fragment_spec ls) ^ "\t"
-    ^ classes [("cont_after_bad", frag_cont_after_bad ls); ("alias_lines", frag_lines_desync ls)]
+    ^ classes [("cont_after_bad", frag_cont_after_bad ls); ("alias_lines", frag_has_empty_alias ls)]
   | _ -> "BAD-CASE")
 
 (* the same lines embedded in a Lua file: one comment block, same result as ParseCommentFragment on the lines *)
